@@ -154,3 +154,6 @@ target(PVT + "get_symlink_target", params=dict(path=STR), result=STR, modifies=[
            ContentChanged(PathToId(c.old.path)), c.result == ReadLink(LimboName(TidOfPreviewPath(c.old.path))),
            Implies(Not(PathToId(c.old.path).is_none), c.result == TreeLink(OrigPath(PathToId(c.old.path).val))))},
        raises={"Exception": True}, canary=lambda c: ContentChanged(PathToId(c.old.path)))
+
+undecided("PreviewTree._path2trans_id (repaired by 3e92ab8): the choice among children with the same name is exercised by the operation-menu "
+          "enumeration only (its comprehension condition with a short-circuit 'or' of two calls is outside the engine)")
